@@ -551,7 +551,7 @@ type plan struct {
 
 func main() {
 	if pool.IsWorker() {
-		pool.Serve(map[string]pool.Handler{"seq": seqWorker, "short": shortWorker, "table": tableWorker})
+		pool.Serve(map[string]pool.Handler{"seq": seqWorker, "short": shortWorker, "table": tableWorker, "conc": concWorker})
 	}
 	c := ev.New("C19")
 	defer runner.Cleanup()
@@ -584,7 +584,7 @@ func main() {
 	}
 	expected := map[string]map[int]int64{}
 	const plen = 2
-	var total, later, redRuns, tableN int64
+	var total, later, redRuns, tableN, concExecs, concScen int64
 	got := map[string]map[int]int64{}
 	outcomes := map[string]int{}
 	run := func(shards []pool.Shard, plan string) {
@@ -611,6 +611,13 @@ func main() {
 				}
 			case "fail":
 				c.Fail(r.Key, r.Clause, r.Size, r.Case, r.Detail)
+			case "concdone":
+				concExecs += r.N
+				concScen++
+				c.Outcome(fmt.Sprintf("conc:%d-outcomes", r.Size))
+				if strings.HasPrefix(r.Detail, "false") {
+					c.NotExhaustive("concurrent scenario " + r.Key + " stopped: " + r.Detail)
+				}
 			case "failcount":
 				for i := int64(0); i < r.N; i++ {
 					c.Fail(r.Key, "", 1<<30, nil, "")
@@ -623,6 +630,15 @@ func main() {
 		})
 	}
 	run([]pool.Shard{{Kind: "table", Arg: shardArg{Seed: c.Seed}}}, "")
+	// concurrent clause: coroutines instantiating Box<T> with different arguments under the scheduler
+	var cshards []pool.Shard
+	for _, sc := range concScenarios(c.Quick()) {
+		cshards = append(cshards, pool.Shard{Kind: "conc", Arg: sc})
+	}
+	run(cshards, "")
+	c.Set("concurrent_scenarios", concScen)
+	c.Set("concurrent_executions", concExecs)
+	total += concExecs
 	var donePlans []plan
 	for _, p := range plans {
 		// a plan (one complete history space) is only started while the budget lasts
